@@ -91,7 +91,8 @@ theorem invalid_config (E : Env) (s : State) (cfg : Config) (h : Gen.setConfigIn
   refine ⟨.err .invalidConfig, ?_⟩
   simp [step, runOp, setConfig, h]
 
-theorem empty_or_oversized_broadcast (E : Env) (s : State) (b : Bytes) (h : b = [] ∨ b.length > s.cfg.mps) :
+theorem empty_or_oversized_broadcast (E : Env) (s : State) (b : Bytes)
+    (h : b = [] ∨ (b.length > s.cfg.mps ∨ b.length > 65535)) :
     NoTrace E s (.addBroadcast b) := by
   intro orc
   rcases h with h | h
